@@ -114,16 +114,17 @@ type ExposureTime float32
 // used by encoding/json
 func (et ExposureTime) MarshalText() (text []byte, err error) {
 	a := float64(et)
-	if et == 0.0 || math.IsNaN(a) {
+	if !(a > 0) { // zero, negative or NaN: not an exposure time
 		return nil, nil
 	}
 	if a < 1.0 {
-		a = float64(1.0 / a)
-		buf := make([]byte, 2, 6)
-		buf[0] = '1'
-		buf[1] = '/'
-		buf = strconv.AppendUint(buf, uint64(math.Round(a*1000)/1000), 10)
-		return buf, nil
+		// nearest fraction 1/n; values closer to a whole second than to 1/2 are written as decimals
+		if n := math.Round(1.0 / a); n >= 2 {
+			buf := make([]byte, 2, 8)
+			buf[0] = '1'
+			buf[1] = '/'
+			return strconv.AppendFloat(buf, n, 'f', 0, 64), nil
+		}
 	}
 	return strconv.AppendFloat(nil, a, 'f', 2, 32), nil
 }
@@ -139,16 +140,16 @@ func (et *ExposureTime) UnmarshalText(text []byte) (err error) {
 	for i := 0; i < len(text); i++ {
 		if text[i] == '/' {
 			var n, d float64
-			if n, err = strconv.ParseFloat(string(text[:i]), 32); err != nil {
+			if n, err = strconv.ParseFloat(string(text[:i]), 64); err != nil {
 				return err
 			}
-			if d, err = strconv.ParseFloat(string(text[i+1:]), 32); err != nil {
+			if d, err = strconv.ParseFloat(string(text[i+1:]), 64); err != nil {
 				return err
 			}
 			if d == 0 {
 				return strconv.ErrRange
 			}
-			*et = ExposureTime(float32(n) / float32(d))
+			*et = ExposureTime(n / d)
 			return nil
 		}
 	}
